@@ -9,8 +9,8 @@
    (assumption A-fs: glob 0.3 with default options - '*' also matches names with a leading dot, "**/" matches
    zero or more directories, directories are results like files; observed through the correspondence).
 
-   Also here (it is a corollary of the same definitions, and the check collects theorems per file):
-   the file-system half of C14, [C14_fs_consistent]. *)
+   The file-system half of C14 ([C14_fs_consistent]) is a corollary of the same definitions; it is stated in
+   Properties/C14.v. *)
 From Coq Require Import List NArith Bool Arith Sorted.
 From Mila Require Import Lib.Bytes Lib.Machine Model.Localize Proofs.LocalizeProofs Model.LayeredFS
   Proofs.LayeredFSBase Proofs.LayeredFSStack Proofs.LayeredFSList Proofs.LayeredFSWf Proofs.LayeredFSLocal.
@@ -94,48 +94,6 @@ Proof. intros c d os S. exact (fs_run_wf c d os S). Qed.
 Theorem C13_wf_check_sound : forall L, wf_layerb L = true -> wf_layer L.
 Proof. exact wf_layerb_sound. Qed.
 
-(* ---------------------------------------------------------------- C14 (file-system half) *)
-(* all filesystem operations apply the same mapping: a localized call addresses localize p.  read and write
-   pick the codec by the name the CALLER passed (as the code does), which for a path dir/name is the same
-   choice as for localize p ([C14_fs_same_codec]). *)
-Theorem C14_fs_consistent : forall S p p',
-  localize (c_loc (conf S)) (lng S) p = LOk p' ->
-  fs_addr S p true = fs_addr S p' false /\
-  fs_exists S p true = fs_exists S p' false /\
-  fs_file_exists S p true = fs_file_exists S p' false /\
-  fs_directory_exists S p true = fs_directory_exists S p' false /\
-  fs_resolve S p true = fs_resolve S p' false /\
-  (forall pat, fs_list S p pat true = fs_list S p' pat false) /\
-  fs_subdirectories S p true = fs_subdirectories S p' false /\
-  fs_create_dir S p true = fs_create_dir S p' false /\
-  (forall compress decompress,
-     is_compressed (c_comp (conf S)) p = is_compressed (c_comp (conf S)) p' ->
-     fs_read decompress S p true = fs_read decompress S p' false /\
-     (forall b, fs_write compress S p b true = fs_write compress S p' b false)).
-Proof.
-  intros S p p' H. split; [exact (loc_addr S p p' H)|].
-  destruct (loc_queries S p p' H) as (A & B & C & D & E & F & G). repeat (split; [assumption|]).
-  intros c d. exact (loc_read_write S p p' H c d).
-Qed.
-Theorem C14_fs_same_codec : forall g l c dir name p',
-  g <> GNoOp -> dir <> [] -> Forall plainP (dir ++ [name]) ->
-  localize g l (render (dir ++ [name]) false) = LOk p' ->
-  is_compressed c p' = is_compressed c (render (dir ++ [name]) false).
-Proof. exact loc_same_codec. Qed.
-(* a localisation error is reported by every operation (resolve: None) and changes nothing *)
-Theorem C14_fs_localisation_error : forall S p e compress decompress b pat,
-  localize (c_loc (conf S)) (lng S) p = LErr e ->
-  fs_read decompress S p true = FErr (ELocalization e) /\
-  fs_write compress S p b true = (S, FErr (ELocalization e)) /\
-  fs_create_dir S p true = (S, FErr (ELocalization e)) /\
-  fs_exists S p true = FErr (ELocalization e) /\
-  fs_list S p pat true = FErr (ELocalization e) /\
-  fs_resolve S p true = FOk None.
-Proof.
-  intros S p e c d b pat H.
-  unfold fs_read, fs_write, fs_create_dir, fs_exists, fs_list, fs_resolve, fs_addr, fs_actual. rewrite H. repeat split.
-Qed.
-
 (* ---- non-vacuity ---- *)
 (* two layers with the same file, a directory only in the lower one, a hidden file; the default listing of "d" *)
 Definition ex_l0 : layer := [([[100]], Dir); ([[100]; [97]], File [1]); ([[100]; [115]], Dir); ([[100]; [115]; [46; 104]], File [])].
@@ -149,5 +107,3 @@ Example C13_example_list :
   /\ fs_subdirectories ex_fs [100] false = FOk [[100; 47; 115]]
   /\ fs_list ex_fs [110; 111] PAll false = FOk [].
 Proof. vm_compute. repeat split. Qed.
-Example C14_fs_example : localize (c_loc (conf ex_fs)) (lng ex_fs) [100; 47; 97] = LOk [100; 47; 69; 47; 97].
-Proof. vm_compute. reflexivity. Qed.
